@@ -9,6 +9,7 @@ from . import model_core  # noqa: F401
 from . import model_pos  # noqa: F401
 from . import transform_steps  # noqa: F401
 from .classes import FN, FR
+from .model_pos import RSHAPE
 
 FRS = "prosemirror/transform/replace_step.py"
 FST = "prosemirror/transform/step.py"
@@ -58,9 +59,14 @@ contract(FR, "replace", {"from_": "ResolvedPos", "to": "ResolvedPos", "slice": "
          props=P + ["C02"])
 OUT = "pos < 0 or pos > {d}.content.size"
 contract(FN, "Node.resolve", {"self": "Node", "pos": "int"}, returns="ResolvedPos",
-         raises={"ValueError": OUT.format(d="self")}, ensures=["result.pos == pos", "rp_node(result, 0) == self"], props=P + ["C09"])
+         raises={"ValueError": OUT.format(d="self")}, ensures=["result.pos == pos", "rp_node(result, 0) == self"],
+         defines=[c.format(d="self") for c in RSHAPE], props=P + ["C09"])
 contract("prosemirror/model/resolvedpos.py", "ResolvedPos.resolve_cached", {"doc": "Node", "pos": "int"}, returns="ResolvedPos",
-         raises={"ValueError": OUT.format(d="doc")}, ensures=["result.pos == pos", "rp_node(result, 0) == doc"], props=P + ["C09"])
+         raises={"ValueError": OUT.format(d="doc")}, ensures=["result.pos == pos", "rp_node(result, 0) == doc"],
+         defines=[c.format(d="doc") for c in RSHAPE], props=P + ["C09"])
+# both positions lie in the same parent node (same depth, same index at every level above)
+FLAT = "rdepth({d}, {a}) == rdepth({d}, {b}) and all_(0, rdepth({d}, {a}), lambda k: ridx({d}, {a}, k) == ridx({d}, {b}, k))"
+CLOSED = "{s}.open_start == 0 and {s}.open_end == 0"
 RANGE = "from_ < 0 or from_ > {d}.content.size or to < 0 or to > {d}.content.size"
 PAYLOAD = "implies(slice.open_start == 0 and slice.open_end == 0, fvalid(slice.content.content))"
 contract(FN, "Node.replace", {"self": "Node", "from_": "int", "to": "int", "slice": "Slice"}, returns="Node",
@@ -68,7 +74,8 @@ contract(FN, "Node.replace", {"self": "Node", "from_": "int", "to": "int", "slic
          # out-of-range positions are reported, never indexed with; a deeply valid document stays deeply valid
          ensures=["0 <= from_ and from_ <= self.content.size and 0 <= to and to <= self.content.size",
                   f"dvalid(self) and not self.type.is_text and {PAYLOAD} and prep_valid(slice, self, from_) ==> dvalid(result)", "result.type == self.type",
-                  "slice.content.size == 0 ==> result.content.size == self.content.size - (to - from_)"],
+                  "slice.content.size == 0 ==> result.content.size == self.content.size - (to - from_)",
+                  f"{CLOSED.format(s='slice')} and {FLAT.format(d='self', a='from_', b='to')} ==> result.content.size == self.content.size - (to - from_) + slice.content.size"],
          props=P + ["C02"])
 
 # ---- step results
@@ -77,7 +84,9 @@ contract(FST, "StepResult.from_replace", {"doc": "Node", "from_": "int", "to": "
          may_raise={"ValueError": "True"},
          ensures=["(result.failed is None) == (result.doc is not None)",
                   f"dvalid(doc) and not doc.type.is_text and {PAYLOAD} and prep_valid(slice, doc, from_) and result.doc is not None ==> dvalid(result.doc)",
-                  "slice.content.size == 0 and result.doc is not None ==> result.doc.content.size == doc.content.size - (to - from_)"],
+                  "slice.content.size == 0 and result.doc is not None ==> result.doc.content.size == doc.content.size - (to - from_)",
+                  f"{CLOSED.format(s='slice')} and {FLAT.format(d='doc', a='from_', b='to')} and result.doc is not None"
+                  " ==> result.doc.content.size == doc.content.size - (to - from_) + slice.content.size"],
          props=P)
 
 contract(FRS, "content_between", {"doc": "Node", "from_": "int", "to": "int"}, returns="bool",
@@ -91,8 +100,10 @@ contract(FRS, "content_between", {"doc": "Node", "from_": "int", "to": "int"}, r
 from pyvc import api as _api  # noqa: E402
 
 _ns = _api.CONTRACTS["Node.slice"]
-_ns.defines = ["result.open_start == sl_os(self, from_, self.content.size if to is None else to)",
-               "result.open_end == sl_oe(self, from_, self.content.size if to is None else to)"]
+# (the names stand for the default call; with include_parents the open depths are counted from the root instead --
+# found by evaluating the naming clauses natively, which the first version of the native phase did not do)
+_ns.defines = ["not include_parents ==> result.open_start == sl_os(self, from_, self.content.size if to is None else to)",
+               "not include_parents ==> result.open_end == sl_oe(self, from_, self.content.size if to is None else to)"]
 _ns.may_raise = {"ValueError": "from_ < 0 or from_ > self.content.size or (to is not None and (to < 0 or to > self.content.size))"}
 # total: a step decoded from a peer's JSON may ask for any range; the size equation is promised for well-formed ranges only
 _ns.requires = []
@@ -138,7 +149,11 @@ contract(FRS, "ReplaceStep.apply", {"self": "ReplaceStep", "doc": "Node"}, retur
                   "dvalid(doc) and not doc.type.is_text and implies(self.slice.open_start == 0 and self.slice.open_end == 0, fvalid(self.slice.content.content))"
                   " and prep_valid(self.slice, doc, self.from_) and result.doc is not None ==> dvalid(result.doc)",
                   # C03 for deletions: the document shrinks by exactly what the step's map [from, to - from, 0] says
-                  "self.slice.content.size == 0 and result.doc is not None ==> result.doc.content.size == doc.content.size - (self.to - self.from_)"],
+                  "self.slice.content.size == 0 and result.doc is not None ==> result.doc.content.size == doc.content.size - (self.to - self.from_)",
+                  # C03 for a closed slice put between two positions of one parent: the document changes by exactly what the map
+                  # [from, to - from, slice.size] says
+                  f"{CLOSED.format(s='self.slice')} and {FLAT.format(d='doc', a='self.from_', b='self.to')} and result.doc is not None"
+                  " ==> result.doc.content.size == doc.content.size - (self.to - self.from_) + self.slice.content.size"],
          props=P)
 contract(FRS, "ReplaceAroundStep.apply", {"self": "ReplaceAroundStep", "doc": "Node"}, returns="StepResult",
          may_raise={"ValueError": "True"},
